@@ -87,7 +87,7 @@ func genValueType(t *rapid.T) cfggen.Type {
 
 func genC(t *rapid.T) CaseC {
 	ty := genValueType(t)
-	v := replaceStrings(t, cfggen.GenVal(t, ty))
+	v := cfggen.WidenNumbers(t, replaceStrings(t, cfggen.GenVal(t, ty)))
 	if rapid.IntRange(0, 15).Draw(t, "null") == 15 {
 		v = cfggen.Null()
 	}
@@ -148,6 +148,11 @@ func classifyC(c CaseC) core.Class {
 	if c.Val.IsNull() {
 		cl.Labels = append(cl.Labels, "null")
 	}
+	nums := map[string]bool{}
+	cfggen.NumClasses(c.Val, false, nums)
+	for k := range nums {
+		cl.Labels = append(cl.Labels, k)
+	}
 	cl.NonTrivial = special || c.Type.K != "string" && c.Type.K != "number" && c.Type.K != "bool"
 	cl.Fingerprint = fmt.Sprintf("%s|np=%v|esc=%v|null=%v|n=%d", c.Type.K, np, special, c.Val.IsNull(), minInt(len(c.Val.L)+len(c.Val.M), 3))
 	return cl
@@ -156,7 +161,7 @@ func classifyC(c CaseC) core.Class {
 func TestC20c(t *testing.T) {
 	core.Run(t, core.Spec[CaseC]{
 		Property: "C20", Sub: "c",
-		Rule: "cty values of type string/number/bool, list/set/map of these, map of lists, object, or untyped tuple/object trees (strings from a pool of template/escape/comment look-alikes and arbitrary Unicode strings incl. control and non-printable runes; numbers incl. int64 bounds, fractions, exponents), occasionally null. Oracle: TokensForValue(v).Bytes() parses as an expression and evaluates to v (after conversion to v's type, as documented for collection literals). Non-trivial: a collection/structural value or a string that needs escaping; distinct = (type kind, non-printable, needs escaping, null, size<=3)",
+		Rule: "cty values of type string/number/bool, list/set/map of these, map of lists, object, or untyped tuple/object trees (strings from a pool of template/escape/comment look-alikes and arbitrary Unicode strings incl. control and non-printable runes; numbers: int64 boundaries and +-1 around them, uint64 above 2^63 up to MaxUint64, 2^64, 2^128, -2^70, 1e20, 1e308, 1e-7, 0.1, quotients such as 1/3 at cty precision, -0; also nested in lists/objects/maps), occasionally null. Oracle: TokensForValue(v).Bytes() parses as an expression and evaluates to v (after conversion to v's type, as documented for collection literals). Non-trivial: a collection/structural value or a string that needs escaping; distinct = (type kind, non-printable, needs escaping, null, size<=3)",
 		Gen:  genC, Check: checkC, Classify: classifyC,
 		Assumptions: []string{"go-cty conversion and number parsing are the trusted base"},
 	})
@@ -252,7 +257,32 @@ func classifyD(c CaseD) core.Class {
 	}
 	walk(&c.Inst, 0)
 	for _, a := range c.Schema.Attrs {
-		cl.Labels = append(cl.Labels, "attr:"+a.T.K)
+		k := a.T.K
+		if k == "number" {
+			switch {
+			case a.T.Int:
+				k = "number-int64"
+			case a.T.Uint:
+				k = "number-uint64"
+			default:
+				k = "number-float64"
+			}
+		}
+		cl.Labels = append(cl.Labels, "attr:"+k)
+	}
+	nums := map[string]bool{}
+	var walkNums func(b *cfggen.BodyI)
+	walkNums = func(b *cfggen.BodyI) {
+		for _, a := range b.Attrs {
+			cfggen.NumClasses(a.V, false, nums)
+		}
+		for i := range b.Blocks {
+			walkNums(&b.Blocks[i].Body)
+		}
+	}
+	walkNums(&c.Inst)
+	for k := range nums {
+		cl.Labels = append(cl.Labels, k)
 	}
 	if lab {
 		cl.Labels = append(cl.Labels, "blocks:labelled")
@@ -269,7 +299,7 @@ func classifyD(c CaseD) core.Class {
 func TestC20d(t *testing.T) {
 	core.Run(t, core.Spec[CaseD]{
 		Property: "C20", Sub: "d",
-		Rule: "schemas restricted to what gohcl.EncodeIntoBody documents as supported (no remain/any fields) with conforming instances, built as Go structs (reflect.StructOf, yaotl tags: attr/optional/pointer, block/[]block/[]*block, labels); Oracle: EncodeIntoBody into an empty file -> Bytes() -> parse -> DecodeBody gives an equal struct. Non-trivial: at least one nested block; distinct = (nesting, labelled, repeated, #blocks<=4, #attrs<=4)",
+		Rule: "schemas restricted to what gohcl.EncodeIntoBody documents as supported (no remain/any fields) with conforming instances, built as Go structs (reflect.StructOf, yaotl tags: attr/optional/pointer, int64/uint64/float64 number fields with boundary, >2^63, 1e20, 1e308 values, block/[]block/[]*block, labels); Oracle: EncodeIntoBody into an empty file -> Bytes() -> parse -> DecodeBody gives an equal struct. Non-trivial: at least one nested block; distinct = (nesting, labelled, repeated, #blocks<=4, #attrs<=4)",
 		Gen:  genD, Check: checkD, Classify: classifyD,
 		Assumptions: []string{"nil and empty slices/maps are the same Go result"},
 	})
